@@ -228,6 +228,18 @@ func main() {
 					expect[n], outcome[n] = "", "error"
 				}
 			}
+			// on every other HTTP/2 connection, first use up the server's per-connection cache of
+			// canonical header names with many distinct uncommon names (multi-step sequence)
+			if j.proto == "h2" && ji%2 == 0 {
+				var filler [][2]string
+				for k := 0; k < 40; k++ {
+					filler = append(filler, [2]string{fmt.Sprintf("x-filler-%d-%d-abcdefghij", ji, k), "v"})
+				}
+				filler = append(filler, [2]string{strings.ToLower(rig.TagHeader), fmt.Sprintf("C05-%d-%d-filler", run.Seed, ji)})
+				if _, err := s.Do("GET", "/c05filler", "front.example", filler, nil, 20*time.Second); err == nil {
+					run.Add("h2_connections_with_header_name_cache_filled", 1)
+				}
+			}
 			for fi, form := range j.forms {
 				nonce := fmt.Sprintf("spoof%dn%dn%d", run.Seed, ji, fi)
 				tag := fmt.Sprintf("C05-%d-%d-%d", run.Seed, ji, fi)
